@@ -1,5 +1,6 @@
 """C16 - allocation failure anywhere is reported, never suffered."""
-from vf.common import Harness
+import os
+from vf.common import Harness, REPO
 
 LEVEL = "model_checking"
 TECHNIQUE = "CBMC bounded symbolic execution of allocation-heavy units with a nondeterministically failing allocator (one symbolic bit per allocation = every fault schedule in one query)"
@@ -15,6 +16,13 @@ def unit(name, n, extra=(), unwind=8, uf=None, desc="", timeout=600, flags=(), m
                    bounds="every allocation of the unit may fail independently", functions=[desc])
 
 
+def gen_types(ctx_, outdir):
+    """copy of types.h with the SIZED_STRING* member of union YR_VALUE declared first (CBMC models a union through its
+    first member; see vf/props/c20.py and DESIGN 9.5 P37)"""
+    from vf.props import c20
+    return c20.gen_types(ctx_, outdir)
+
+
 def harnesses(ctx, tier):
     hs = [
         unit("arena", 1, uf={"memcmp": 13, "vf_fill": 13, "_yr_arena_allocate_memory": 6, "yr_arena_release": 6}, desc="arena.c: create, allocate_struct, write_data x2 (growth), make_ptr_relocatable, release"),
@@ -24,6 +32,10 @@ def harnesses(ctx, tier):
         unit("hash", 4, uf={"strlen": 4, "strcmp": 4, "hash": 4, "yr_hash": 4, "_yr_hash_table_lookup": 4, "yr_hash_table_clean": 4, "memcmp": 4}, desc="hash.c: create, add (with/without namespace), lookup, destroy"),
         unit("atoms_ascii_wide", 5, ["-DVF_FLAGS=(STRING_FLAGS_ASCII|STRING_FLAGS_WIDE)"], desc="atoms.c: yr_atoms_extract_from_string ascii|wide"),
         unit("atoms_xor", 5, ["-DVF_FLAGS=(STRING_FLAGS_ASCII|STRING_FLAGS_XOR)"], desc="atoms.c: yr_atoms_extract_from_string ascii xor(1-2)"),
+        unit("object_string", 6, ["-DVF_OBJ_TYPE=OBJECT_TYPE_STRING"], uf={"strlen": 4, "rec:yr_object_destroy": 2}, desc="object.c: yr_object_create(string), yr_object_set_string x2 (replace), yr_object_destroy"),
+        unit("object_integer", 6, ["-DVF_OBJ_TYPE=OBJECT_TYPE_INTEGER"], uf={"strlen": 4, "rec:yr_object_destroy": 2}, desc="object.c: yr_object_create(integer), yr_object_set_integer, yr_object_destroy"),
+        # unit 9 (structure with members + yr_object_copy, units.c) is not registered: no verdict in 900 s (symbolic execution of the
+        # varargs field lookup explodes)
         unit("sizedstr", 7, uf={"strlen": 4}, desc="sizedstr.c: ss_new, ss_dup"),
         unit("rules_from_arena", 8, uf={"_yr_arena_allocate_memory": 6, "yr_arena_release": 14, "yr_rules_from_arena": 3, "yr_rules_destroy": 3, "memset": 80},
              desc="rules.c: yr_rules_from_arena on a minimal well-formed arena, then yr_rules_destroy"),
@@ -31,4 +43,8 @@ def harnesses(ctx, tier):
                 desc="ahocorasick.c: transition-table growth (two arena growths + bitmask realloc) with every allocation failing independently",
                 bounds="slot 0..300, table of 300 entries", functions=["_yr_ac_find_suitable_transition_table_slot"], stubs=["yr_bitmask_find_non_colliding_offset -> any offset"]),
     ]
+    for h in hs:
+        if h.name.startswith("H1_object_"):
+            h.gen = gen_types
+            h.includes = ["-I@OUTDIR@", "-I" + os.path.join(REPO, "libyara", "include", "yara")]
     return hs
